@@ -71,6 +71,10 @@ PENDING_FINDINGS = [
     "code:subsample.CalgaryCampinasMaskFunc:KeyError-float-acceleration",
     "config:direct.nn.unet.config.NormUnetModel2dConfig:not-a-dataclass",
     "config:direct.nn.resnet.config.ResNetConfig:default-init-TypeError",
+    "config:direct.nn.conjgradnet.config.ConjGradNetConfig:default-init-ValueError",
+    "config:direct.nn.recurrentvarnet.config.RecurrentVarNetConfig:default-init-ValueError",
+    "config:direct.nn.varsplitnet.config.MRIVarSplitNetConfig:default-init-ValueError",
+    "config:direct.nn.vsharp.config.VSharpNetConfig:default-init-ValueError",
 ]
 
 STAGE = {1: "merge", 2: "operators", 3: "engine", 4: "blocks"}
@@ -627,6 +631,9 @@ _STATE: dict = {}
 
 def prepare(ctx: Ctx):
     """run the real code for every file (and for the mutated files) in worker processes, once"""
+    import logging
+
+    logging.disable(logging.CRITICAL)      # the repository logs every failed lookup before it exits; the verdicts carry that
     info = _info()
     _STATE.clear()
     if info.failures or not info.configs:
@@ -679,7 +686,7 @@ def prepare(ctx: Ctx):
     try:
         with mp.Pool(N_WORKERS) as pool:
             try:
-                results = pool.map_async(_worker, [t for _, t in tasks], chunksize=1).get(timeout=840 if ctx.thorough else 240)
+                results = pool.map_async(_worker, [t for _, t in tasks], chunksize=1).get(timeout=3000 if ctx.thorough else 900)
             except multiprocessing.TimeoutError as e:
                 raise ToolFailure("real configuration sweep timed out") from e
     finally:
